@@ -1,6 +1,60 @@
 package main
 
-import "time"
+import (
+	"fmt"
+	"os"
+	"os/exec"
+	"path/filepath"
+	"strings"
+	"time"
+
+	"verif/sim/astyield"
+)
+
+// prepareC18 copies /repo to a scratch directory outside /repo and /verif,
+// inserts preemption points into its logger package (go/ast rewrite), and
+// points the build at the copy with -modfile. The copy is removed right after
+// the build (the test binary is self-contained).
+func prepareC18(work string) ([]string, []string, func(), error) {
+	scratch, err := os.MkdirTemp("", "verif-c18-")
+	if err != nil {
+		return nil, nil, nil, err
+	}
+	cleanup := func() { os.RemoveAll(scratch) }
+	dst := filepath.Join(scratch, "repo")
+	if out, err := exec.Command("cp", "-r", "/repo", dst).CombinedOutput(); err != nil {
+		cleanup()
+		return nil, nil, nil, fmt.Errorf("copy: %v %s", err, out)
+	}
+	os.RemoveAll(filepath.Join(dst, ".git"))
+	st, err := astyield.RewriteDir(filepath.Join(dst, "logger"))
+	if err != nil {
+		cleanup()
+		return nil, nil, nil, fmt.Errorf("astyield: %v", err)
+	}
+	if st.Yields == 0 {
+		cleanup()
+		return nil, nil, nil, fmt.Errorf("astyield inserted no preemption point")
+	}
+	os.MkdirAll(filepath.Join(dst, "simyield"), 0o755)
+	if err := os.WriteFile(filepath.Join(dst, "simyield", "simyield.go"), []byte(astyield.SimyieldSource), 0o644); err != nil {
+		cleanup()
+		return nil, nil, nil, err
+	}
+	gm, err := os.ReadFile(filepath.Join(verif, "sim", "go.mod"))
+	if err != nil {
+		cleanup()
+		return nil, nil, nil, err
+	}
+	mod := strings.Replace(string(gm), "=> /repo", "=> "+dst, 1)
+	modfile := filepath.Join(scratch, "go.mod")
+	os.WriteFile(modfile, []byte(mod), 0o644)
+	if gs, err := os.ReadFile(filepath.Join(verif, "sim", "go.sum")); err == nil {
+		os.WriteFile(filepath.Join(scratch, "go.sum"), gs, 0o644)
+	}
+	fmt.Printf("C18: scratch copy %s, %d preemption points inserted (%d compound assignments split)\n", dst, st.Yields, st.Splits)
+	return []string{"-modfile=" + modfile, "-tags=c18scratch"}, nil, cleanup, nil
+}
 
 var stdAssume = []string{
 	"every run is a pure function of its plan (replay file); plans come from one PCG generator seeded by VERIF_SEED",
@@ -139,5 +193,16 @@ var metas = map[string]*checkMeta{
 		Assumptions: append([]string{"the harness respects the documented contract: one data writer, one reader, any number of control writers/closers", "a control write whose own deadline had passed when it returned may report the timeout error even after a Close frame was sent", "race phase: tasks park only where no library lock is held"}, stdAssume...),
 		Faults:      []string{"fault_stall", "control_writes_timed_out"},
 		Probes:      []string{"frames_spanning_two_transport_writes", "runs_with_close_frame", "calls_after_close_frame", "control_writes_timed_out", "data_messages_on_wire", "race_engine_runs", "task_switches"},
+	},
+	"C18": {
+		ID: "C18", Level: "exploration",
+		Phases: []phase{{Name: "race", Pkg: "checks/c18", Race: true, Prepare: prepareC18,
+			Quick: tierCfg{Count: 120, Budget: 60 * time.Second},
+			Thor:  tierCfg{Count: 8000, Budget: 20 * time.Minute}}},
+		Rule: "plan = 2..8 tasks, each with 1..6 ops from {WithContext, AliasContext (source nil / own latest context / context without id), I/T/W/E and If/Tf/Wf/Ef with generated messages and context kinds nil / object with Cid() / own latest library-made context / context.Context without id} x schedule tape over the preemption points the go/ast rewrite inserted into a scratch copy of package logger (before every statement mentioning a package-level variable; x += 1 split into load/yield/store) plus one yield before every op. One engine: raw-futex gates in a -race build, so a run yields the oracle verdict and the detector's verdict. Non-trivial = more than 2 task switches. Distinct = distinct plan bodies.",
+		Components: map[string]string{"logger (WithContext, AliasContext, I/T/W/E, If/Tf/Wf/Ef, Switch)": "real code, compiled from a scratch copy of /repo's working tree with inserted simyield.Y() calls (no change to /repo)", "writer": "sim writer installed with logger.Switch (one event per Write)", "scheduler": "tape-driven, raw futex gates invisible to the race detector"},
+		Assumptions: append([]string{"context ids are learned after the run by logging one probe line per context from the main goroutine (the context key is unexported)", "an Info-level call may emit nothing (the library routes that level to a discard writer)", "for a context.Context without an id the prefix is not specified by the statement; only line wholeness and the message are checked", "messages contain no newline"}, stdAssume...),
+		Faults:      []string{"preemption_yields", "task_switches"},
+		Probes:      []string{"contexts_created", "log_lines_checked", "runs_with_inserted_preemption_points", "preemption_yields"},
 	},
 }
